@@ -100,7 +100,12 @@ def explore(args):
     for d in range(depth):
         nxt = []
         for root, hist in frontier:
+            big = any(kind(n) == "ConstantExpression" and isinstance(n.value, int) and abs(n.value) > 2**40 for n in nodes_inorder(root))
             for rname, rule in rules.items():
+                if big and rname.startswith("distributive_factor_out"):
+                    # util.factor is trial division up to sqrt(n): minutes per call beyond 2^40 (stated bound of this run);
+                    # its TypeError beyond 64 bits is replayed from the known-findings witness instead
+                    continue
                 try:
                     targets = rule.find_nodes(root)
                 except Exception as e:  # noqa: BLE001
